@@ -39,10 +39,10 @@ def eval_chunk(args):
     for (seed, idx) in args:
         rng = random.Random(f"r{seed}:{idx}")
         d = G.gen_doc(rng)
-        ctext, crec = G.render(d, G.Spelling(rng, canonical=True))
+        ctext, crec, cadv = G.render_full(d, G.Spelling(rng, canonical=True))
         only = RECEIPTED[idx % len(RECEIPTED)]
-        ltext, lrec = G.render(d, G.Spelling(rng, p=rng.choice([0.15, 0.5, 0.9]), only=only))
-        out.append({"model": d, "ctext": ctext, "crec": crec, "ltext": ltext, "lrec": lrec, "only": sorted(only) if only else "all",
+        ltext, lrec, ladv = G.render_full(d, G.Spelling(rng, p=rng.choice([0.15, 0.5, 0.9]), only=only))
+        out.append({"model": d, "ctext": ctext, "crec": crec, "cadv": cadv, "ltext": ltext, "lrec": lrec, "ladv": ladv, "only": sorted(only) if only else "all",
                     "c": T.py_parse_warn(ctext), "l": T.py_parse_warn(ltext)})
     return out
 
@@ -105,6 +105,216 @@ def brace_sites(ctx, findings):
                 X.classify(ctx, findings, CLASSES, case, f"octave_write(lenient=true) rewrote the brace annotations {dict(exp)} but reports {dict(got)}", "site-brace")
 
 
+# --------------------------------------------------------------------------------------------------
+# tool route (octave_write, lenient): brace look-alikes at PROTECTED sites (comment / literal zone / quoted string) are no rewrite
+# sites of the lenient reader — no receipt, text untouched — whatever precedes them inside the protected region
+# --------------------------------------------------------------------------------------------------
+LOOKALIKES_TOOLROUTE = ["Shape{kind}", "Point{x}", "ATHENA{wisdom}", "PKG{latest}", "a.b{q_2}", "T_1{x-y}", "textbf{important}"]
+# text placed BEFORE the look-alike inside the same protected region: nothing / plain text / a nested protected range (a quoted
+# string, a `//`) / several of them.  Quotes are balanced everywhere.
+COMMENT_PRE_TOOLROUTE = ["", "see ", 'see "geometry notes" before touching ', '"a" and "b" then ', 'x // y "z" ', "url http://h/p "]
+ZONE_PRE_LINES_TOOLROUTE = [[], ["plain line"], ['name := "origin"'], ["// setup"], ['s = "a // b"', "// then"], ['"k": "v",'], ["x := 'single' // c"]]
+ZONE_SAME_LINE_TOOLROUTE = ["p := ", '"p": ', 'x = "s" + ', "y // c ", 'K::"s" // c ']
+STRING_PRE_TOOLROUTE = ["", "see ", 'see \\"x\\" then ', "http://h/p ", "a // b "]
+REAL_BRACES_TOOLROUTE = [("ARES{war}", "ARES<war>"), ("ATHENA{wisdom}", "ATHENA<wisdom>"), ("T_1{x}", "T_1<x>"), ("Point{x}", "Point<x>")]
+
+
+def kf_brace_after_unbalanced_quote(case) -> bool:
+    """C07N2: octave_write(lenient=true) on text in which a `//` comment or a literal-zone line holding an ODD number of double quotes
+    precedes a quoted string that holds a NAME{q} look-alike (the pre-pass pairs quotes across lines, textually)."""
+    if case.get("entry") != "tools" or case.get("lenient") is not True:
+        return False
+    text, odd, in_zone, fence = case.get("text") or "", False, False, ""
+    for line in text.split("\n"):
+        s = line.strip()
+        if s.startswith("```"):
+            ticks = s[: len(s) - len(s.lstrip("`"))]
+            if not in_zone:
+                in_zone, fence = True, ticks
+            elif s == fence:
+                in_zone = False
+            continue
+        protected = line if in_zone else (line[line.index("//"):] if "//" in line and line.count('"', 0, line.index("//")) % 2 == 0 else "")
+        if odd and not in_zone and re.search(r'"[^"]*[A-Za-z_][A-Za-z0-9_./\-]*\{[A-Za-z_][A-Za-z0-9_./\-]*\}', line):
+            return True
+        if protected.count('"') % 2 == 1:
+            odd = not odd
+    return False
+
+
+CLASSES["kf_brace_after_unbalanced_quote"] = kf_brace_after_unbalanced_quote
+# an unbalanced double quote inside a comment / zone line, then a quoted string holding the look-alike
+UNBALANCED_PRE_TOOLROUTE = [("comment", ['// a 5" nail']), ("eol-comment", ['U1::1 // 5"']), ("zone", ["U2::", "```", "it's 5\" long", "```"])]
+
+
+def brace_protected_sites_toolroute():
+    """[(label, lines, [protected look-alike tokens], verbatim text)] — one protected region holding a brace look-alike, for every
+    kind of region (own-line comment, end-of-line comment, literal zone, quoted string, string in a list after another string) and
+    every kind of text preceding the look-alike inside that region.  `verbatim text` must survive in the written file as it is
+    (comment text, zone content, string literal).  Zone sites: lines[0] key, lines[1] / lines[-1] fences, content in between."""
+    out, las, k = [], LOOKALIKES_TOOLROUTE, 0
+    for pre in COMMENT_PRE_TOOLROUTE:
+        la = las[k % len(las)]; k += 1
+        out.append((f"comment:{pre!r}", [f"// {pre}{la}"], [la], f"// {pre}{la}"))
+        la = las[k % len(las)]; k += 1
+        out.append((f"eol-comment:{pre!r}", [f"C{k}::1 // {pre}{la}"], [la], f"// {pre}{la}"))
+    la = las[k % len(las)]; k += 1
+    out.append(("eol-comment-after-string", [f'C{k}::"two words" // {la}'], [la], f"// {la}"))
+    for pl in ZONE_PRE_LINES_TOOLROUTE:
+        for sl in ZONE_SAME_LINE_TOOLROUTE[: (len(ZONE_SAME_LINE_TOOLROUTE) if pl in ([], ['name := "origin"']) else 2)]:
+            la = las[k % len(las)]; k += 1
+            body = pl + [f"{sl}{la}"]
+            out.append((f"zone:{pl!r}:{sl!r}", [f"Z{k}::", "```go"] + body + ["```"], [la], "\n" + "\n".join(body) + "\n"))
+    la, lb = las[k % len(las)], las[(k + 1) % len(las)]; k += 1
+    body = ['"q" ' + la, "```", "// c", lb + ' "r" ' + la]
+    out.append(("zone:two-lookalikes", [f"Z{k}::", "````"] + body + ["````"], [la, lb, la], "\n" + "\n".join(body) + "\n"))
+    for pre in STRING_PRE_TOOLROUTE:
+        la = las[k % len(las)]; k += 1
+        out.append((f"string:{pre!r}", [f'S{k}::"{pre}{la}"'], [la], f'"{pre}{la}"'))
+        la = las[k % len(las)]; k += 1
+        out.append((f"string-in-list:{pre!r}", [f'S{k}::["first one","{pre}{la}"]'], [la], f'"{pre}{la}"'))
+    for (kind, pl) in UNBALANCED_PRE_TOOLROUTE:
+        la = las[k % len(las)]; k += 1
+        out.append((f"string-after-unbalanced-quote-in-{kind}", pl + [f'S{k}::"see {la}"'], [la], f'"see {la}"'))
+    return out
+
+
+def brace_protected_toolroute(ctx, findings, canonical_texts=()):
+    """Documents built from the protected sites above and real `NAME{q}` sites (bare values, list items).  Oracle, on octave_write(lenient=true):
+    the multiset of W_REPAIR_CANDIDATE receipts (before, after) == the real sites injected — none for a canonical text, which holds protected
+    sites only — and in the file actually written every protected region is still there verbatim (no rewrite without a receipt either).
+    `canonical_texts`: canonical spellings of generated content-model documents (their zones, comments and strings hold brace look-alikes
+    from the generator's pools): no brace-repair receipt either."""
+    from collections import Counter
+    from octave_mcp.core.emitter import emit
+    from octave_mcp.core.parser import parse
+    from octave_mcp.mcp.write import WriteTool
+    rng = random.Random(f"{ctx.seed}:brace-protected")
+    sites = brace_protected_sites_toolroute()
+    docs = []   # (label, lines, protected tokens, verbatim texts, real sites, canonical input?)
+    for n, (label, lines, prot, verb) in enumerate(sites):
+        docs.append((label + ":alone", lines, prot, [verb], [], True))
+        r1, r2 = REAL_BRACES_TOOLROUTE[n % 4][0], REAL_BRACES_TOOLROUTE[(n + 1) % 4][0]
+        docs.append((label + ":between-real-sites", [f"R1::{r1}"] + lines + [f"R2::[{r2},ok]"], prot, [verb], [r1, r2], False))
+    for i in range(ctx.budget(40, 600)):
+        lines, prot, verb, real, ind = [], [], [], [], ""
+        # without replacement: the keys of the sites are distinct; the unbalanced-quote sites (finding C07N2 changes how the rest of
+        # the text is read) stay in their own fixed documents
+        picked = rng.sample([s for s in sites if "unbalanced" not in s[0]], 5)
+        for j in range(rng.randint(2, 5)):
+            if rng.random() < 0.2 and len(ind) < 4:
+                lines.append(f"{ind}B{j}:")
+                ind += "  "
+            if rng.random() < 0.3:
+                r = rng.choice(REAL_BRACES_TOOLROUTE)[0]
+                if rng.random() < 0.6:
+                    lines.append(f"{ind}R{j}::{r}"); real += [r]
+                else:
+                    lines.append(f'{ind}R{j}::[{r},"two words",{r}]'); real += [r, r]
+            else:
+                (sl_label, sl, sp, sv) = picked[j]
+                if sl_label.startswith("zone"):
+                    # the key and the two fences take the indentation of the block; zone content is verbatim
+                    lines += [ind + sl[0], ind + sl[1]] + sl[2:-1] + [ind + sl[-1]]
+                else:
+                    lines += [ind + x for x in sl]
+                prot += sp
+                verb.append(sv)
+        docs.append((f"mix:{i}", lines, prot, verb, real, not real))
+    with tempfile.TemporaryDirectory() as td:
+        for f in findings:
+            if f["cls"] == "kf_brace_after_unbalanced_quote":
+                w = asyncio.run(WriteTool().execute(target_path=os.path.join(td, "kf.oct.md"), content=f["witness"]["text"], corrections_only=True, lenient=True))
+                got = [(c.get("before"), c.get("after")) for c in (w.get("corrections") or []) if isinstance(c, dict) and c.get("code") == "W_REPAIR_CANDIDATE"]
+                if got:
+                    ctx.known_reproduced.append((f, f"canonical text, receipts {got}"))
+                else:
+                    ctx.notes.append(f"known finding {f['id']} no longer reproduces on its witness")
+        for (label, lines, prot, verb, real, canon) in docs:
+            text = "===D===\n" + "\n".join(lines) + "\n===END===\n"
+            if canon:
+                # canonical input: the canonical text of the document (a fixed point of parse -> emit)
+                try:
+                    text = emit(parse(text))
+                    fixed = emit(parse(text)) == text
+                except Exception:  # noqa: BLE001
+                    fixed = False
+                if not fixed or any(text.count(t) != c for t, c in Counter(prot).items()):
+                    ctx.count("brace-protected:not-canonicalisable")
+                    continue
+            case = {"text": text, "site": "brace look-alike in a protected region", "family": label, "entry": "tools", "lenient": True}
+            ctx.case({"text": text, "site": "brace-protected"}, nontrivial=True)
+            ctx.count("brace-protected:" + label.split(":")[0] + (":canonical" if canon else ":with-real-sites"))
+            p = os.path.join(td, "bp.oct.md")
+            try:
+                w = asyncio.run(WriteTool().execute(target_path=p, content=text, corrections_only=True, lenient=True))
+                if w.get("status") != "success":
+                    ctx.count("brace-protected:write_refused")
+                    continue
+                got = Counter((c.get("before"), c.get("after")) for c in (w.get("corrections") or []) if isinstance(c, dict) and c.get("code") == "W_REPAIR_CANDIDATE")
+                exp = Counter((r, r.replace("{", "<").replace("}", ">")) for r in real)
+                if got != exp:
+                    why = ("canonical input yields brace-repair receipts" if canon else "brace-repair receipts differ from the NAME{q} sites outside comments, zones and strings")
+                    X.classify(ctx, findings, CLASSES, case, f"octave_write(lenient=true): {why}: expected {dict(exp)} got {dict(got)}", "brace-protected-receipts")
+                    continue
+                if os.path.exists(p):
+                    os.remove(p)
+                w = asyncio.run(WriteTool().execute(target_path=p, content=text, lenient=True))
+                if w.get("status") == "success" and os.path.exists(p):
+                    written = open(p, encoding="utf-8", newline="").read()
+                    missing = [v for v in verb if v not in written]
+                    if missing or any(written.count(t) != c for t, c in Counter(prot).items()):
+                        X.classify(ctx, findings, CLASSES, case, f"octave_write(lenient=true) rewrote text inside a protected region without a receipt: {TC.short(missing or prot, 160)}",
+                                   "brace-protected-rewritten", {"written": written})
+                    ctx.count("brace-protected:written-file-compared")
+            except BaseException as e:  # noqa: BLE001
+                ctx.count("tool_raised:" + type(e).__name__)
+        brace = re.compile(r"[A-Za-z_][A-Za-z0-9_./\-]*\{[A-Za-z_][A-Za-z0-9_./\-]*\}")
+        for text in canonical_texts:
+            if not brace.search(text):
+                continue
+            case = {"text": text, "site": "brace look-alike in a protected region", "family": "generated canonical text", "entry": "tools", "lenient": True}
+            ctx.case({"text": text, "site": "brace-protected"}, nontrivial=True)
+            ctx.count("brace-protected:generated-canonical")
+            try:
+                w = asyncio.run(WriteTool().execute(target_path=os.path.join(td, "bg.oct.md"), content=text, corrections_only=True, lenient=True))
+                got = [(c.get("before"), c.get("after")) for c in (w.get("corrections") or []) if isinstance(c, dict) and c.get("code") == "W_REPAIR_CANDIDATE"]
+                if w.get("status") == "success" and got:
+                    X.classify(ctx, findings, CLASSES, case, f"octave_write(lenient=true): canonical input yields brace-repair receipts {got[:4]}", "brace-protected-receipts")
+            except BaseException as e:  # noqa: BLE001
+                ctx.count("tool_raised:" + type(e).__name__)
+
+
+def unfounded_advisories_tools(ctx, findings, fam):
+    """fixed families with runs of empty lists / deep lists through the tools: every lenient_parse/deep_nesting record in
+    octave_validate.repairs and every W_LENIENT_DEEP_NESTING entry of octave_write(lenient=true, corrections_only).corrections must sit
+    on a bracket the MODEL nests that deep (none at all for the members that nest nothing)."""
+    from octave_mcp.mcp.validate import ValidateTool
+    from octave_mcp.mcp.write import WriteTool
+    with tempfile.TemporaryDirectory() as td:
+        for r in fam:
+            if r["family"] not in ("empty-lists", "deep-lists"):
+                continue
+            for s in r["spellings"][:2]:
+                text, owed = s["text"], [tuple(a[-2:]) for a in s["adv"]]
+                case = {"text": text, "site": "deep_nesting advisory", "family": r["family"] + ":" + r["name"], "spelling": s["label"], "entry": "tools", "lenient": True}
+                ctx.case({"text": text, "site": "deep_nesting advisory", "entry": "tools"})
+                try:
+                    v = asyncio.run(ValidateTool().execute(content=text, schema="META"))
+                    got = [(x.get("line"), x.get("column")) for x in (v.get("repairs") or []) if isinstance(x, dict) and x.get("subtype") == "deep_nesting"]
+                    bad = [g for g in got if g not in owed]
+                    if bad:
+                        X.classify(ctx, findings, CLASSES, case, f"octave_validate.repairs reports deep nesting at {bad}; the document nests lists that deep at {owed}", "unfounded-deep-nesting:validate")
+                    w = asyncio.run(WriteTool().execute(target_path=os.path.join(td, "dn.oct.md"), content=text, corrections_only=True, lenient=True))
+                    got = [(x.get("line"), x.get("column")) for x in (w.get("corrections") or []) if isinstance(x, dict) and x.get("code") == "W_LENIENT_DEEP_NESTING"]
+                    bad = [g for g in got if g not in owed]
+                    if w.get("status") == "success" and bad:
+                        X.classify(ctx, findings, CLASSES, case, f"octave_write(lenient=true).corrections reports deep nesting at {bad}; the document nests lists that deep at {owed}", "unfounded-deep-nesting:write")
+                    ctx.count("deep_nesting:tools_founded", len(got) - len(bad))
+                except BaseException as e:  # noqa: BLE001
+                    ctx.count("tool_raised:" + type(e).__name__)
+
+
 def site_matrix(ctx, findings):
     """every rewrite kind alone through all four surfaces, with exact positions."""
     from octave_mcp.mcp.validate import ValidateTool
@@ -146,13 +356,17 @@ def site_matrix(ctx, findings):
 
 
 def run(ctx: vlib.Ctx):
-    ctx.rule = ("content-model documents x seeded subsets of rewrite sites (all freedoms at p in {0.15,0.5,0.9}; aliases only; quotes/triple quotes only; "
+    ctx.rule = ("content-model documents (seeded + fixed families: runs of 0..7 empty lists followed by a list, lists nested 3..8 deep, chained tensions, "
+                "strings with layout characters at their ends) x seeded subsets of rewrite sites (all freedoms at p in {0.15,0.5,0.9}; aliases only; quotes/triple quotes only; "
                 "multi-word only; aliases+layout); expected receipts come from the renderer (positions from its own line/column arithmetic); "
-                "non-trivial = at least one injected rewrite; distinct = distinct text")
+                "non-trivial = at least one injected rewrite; distinct = distinct text; octave_write(lenient=true) on brace look-alikes at protected sites "
+                "(comment / zone / string, after nothing / plain text / a nested quoted string or //) alone (canonical) and among real NAME{q} sites")
     proj = X.setup(ctx, PROPS)
     findings = vlib.load_findings(ctx.prop)
     from octave_mcp.mcp.write import WriteTool as _WT
     for f in findings:
+        if f["cls"] != "kf_strict_write_parser_rewrites":
+            continue      # replayed where its class lives (brace_protected_toolroute)
         with tempfile.TemporaryDirectory() as td0:
             w = asyncio.run(_WT().execute(target_path=os.path.join(td0, "k.oct.md"), content=f["witness"]["text"], corrections_only=True, lenient=False))
             if w.get("status") == "success" and not (w.get("corrections") or []):
@@ -162,27 +376,48 @@ def run(ctx: vlib.Ctx):
     n = ctx.budget(800, 8000)
     args = [(ctx.seed, i) for i in range(n)]
     res = [r for ch in vlib.pmap(eval_chunk, [args[i:i + 40] for i in range(0, len(args), 40)], chunksize=1) for r in ch]
+    # fixed families (docgen.family_docs): runs of literally empty lists followed by a list, genuinely deep lists (>= the documented
+    # advisory depth), chained tensions, strings with layout characters at their ends - canonical, corner and seeded spellings
+    fargs = TC.family_args(ctx.seed)
+    fam = [r for ch in vlib.pmap(TC.family_chunk, [fargs[i:i + 8] for i in range(0, len(fargs), 8)], chunksize=1) for r in ch]
+    flat = []
+    for r in res:
+        flat += [("c", r["ctext"], r["crec"], r["cadv"], r["c"], r["only"]), ("l", r["ltext"], r["lrec"], r["ladv"], r["l"], r["only"])]
+    for r in fam:
+        for s in r["spellings"]:
+            flat.append(("c" if s["label"] == "canonical" else "l", s["text"], s["rec"], s["adv"], s["ev"]["pw"], "family:" + r["family"] + ":" + s["label"]))
+            ctx.count("family:" + r["family"])
     texts, impl = [], []
     nrec = 0
-    for r in res:
-        for which, text, exp in (("c", r["ctext"], r["crec"]), ("l", r["ltext"], r["lrec"])):
-            case = {"text": text, "sites": r["only"], "spelling": which}
-            ctx.case({"text": text}, nontrivial=bool(exp))
-            pw = r[which]
-            nrec += len(exp)
-            if "err" in pw:
-                X.classify(ctx, findings, CLASSES, case, f"reader rejects: {pw['err']}", "rejected")
-            else:
-                got = TC.rewrite_receipts(pw)
-                if sorted(got, key=key) != sorted(exp, key=key):
-                    miss = [x for x in exp if x not in got]
-                    extra = [x for x in got if x not in exp]
-                    why = ("canonical input yields rewrite receipts" if which == "c" and not exp else
-                           "receipts differ from the injected rewrites") + f": missing {TC.short(miss, 200)} unexpected {TC.short(extra, 200)}"
-                    X.classify(ctx, findings, CLASSES, case, why, "canonical-not-silent" if which == "c" else "receipt-mismatch")
-                for x in exp:
-                    ctx.count("injected:" + x[0] + (":" + str(x[1]) if x[0] == "normalization" else ""))
-            texts.append(text); impl.append(pw)
+    for (which, text, exp, adv, pw, sites) in flat:
+        case = {"text": text, "sites": sites, "spelling": which}
+        ctx.case({"text": text}, nontrivial=bool(exp))
+        nrec += len(exp)
+        if "err" in pw:
+            X.classify(ctx, findings, CLASSES, case, f"reader rejects: {pw['err']}", "rejected")
+        else:
+            got = TC.rewrite_receipts(pw)
+            if sorted(got, key=key) != sorted(exp, key=key):
+                miss = [x for x in exp if x not in got]
+                extra = [x for x in got if x not in exp]
+                why = ("canonical input yields rewrite receipts" if which == "c" and not exp else
+                       "receipts differ from the injected rewrites") + f": missing {TC.short(miss, 200)} unexpected {TC.short(extra, 200)}"
+                X.classify(ctx, findings, CLASSES, case, why, "canonical-not-silent" if which == "c" else "receipt-mismatch")
+            # lenient_parse/deep_nesting records are advisories, legitimate exactly where the MODEL nests a list >= the documented
+            # depth (first such bracket of a line).  One that reports nesting the document does not have is a lenient-parse receipt
+            # without any cause in the input (for canonical input: "no normalisation or lenient-parse receipts at all").  A MISSING
+            # advisory is no concern of this property: counted only.
+            gdn = TC.deep_nesting_records(pw)
+            unfounded = [x for x in gdn if x not in adv]
+            if unfounded:
+                why = ("canonical input yields lenient_parse receipts" if which == "c" else "lenient_parse receipts that match nothing in the input") + \
+                    f": deep_nesting reported {TC.short(unfounded, 200)}, the document nests lists that deep at {TC.short([x[-2:] for x in adv], 100)}"
+                X.classify(ctx, findings, CLASSES, case, why, "unfounded-deep-nesting")
+            ctx.count("deep_nesting:founded", len(gdn) - len(unfounded))
+            ctx.count("deep_nesting:advisory_missing", len([x for x in adv if x not in gdn]))
+            for x in exp:
+                ctx.count("injected:" + x[0] + (":" + str(x[1]) if x[0] == "normalization" else ""))
+        texts.append(text); impl.append(pw)
     ctx.extra["injected_rewrites"] = nrec
     for text, pw, m in zip(texts, impl, X.lean_parse_warn(proj, texts)):
         if T.model_unsupported(m):
@@ -224,7 +459,11 @@ def run(ctx: vlib.Ctx):
             except BaseException as e:  # noqa: BLE001
                 ctx.count("tool_raised:" + type(e).__name__)
     site_matrix(ctx, findings)
+    unfounded_advisories_tools(ctx, findings, fam)
     brace_sites(ctx, findings)
+    brace_protected_toolroute(ctx, findings, [r["ctext"] for r in res[: ctx.budget(300, 3000)] if "err" not in r["c"]])
     ctx.assumptions = ["'rewrite receipts' are read as in DESIGN.md §7 C07: lexer normalization / repair_candidate records and the lenient_parse subtypes that "
                        "transform text; advisories (duplicate_key, deep_nesting, spec_violation/*) are not rewrites",
+                       "a lenient_parse/deep_nesting record is accepted as an advisory only where the content model nests a list >= 5 deep (grammar §6) at that "
+                       "line and column; one that reports nesting the document does not have counts as a receipt without a rewrite (a missing advisory is only counted)",
                        "proved for every input: the lexer-level bijection between normalised tokens and normalisation receipts (Props/C07receipts); exact receipts of every alias spelling of expressions (C03expr) and of # section markers (C01sections); canonical flat / block-structured text has none (C01flat, C01blocks); parser-level rewrites and the tool routes are decided by the receipt oracle and the correspondence"]
